@@ -17,8 +17,9 @@ def run_doc_cases(chk):
     skipped = [r for r in allrows if "skipped" in r]
     rows = [r for r in allrows if "doc" in r]
     chk.note("%d documents; %d not expressible as text or syntactically rejected (skipped); %d crashes" % (len(rows), len(skipped), len(crashes)))
-    bad = vlib.trace_validate_parallel(chk, "Trace_ExecRules", "Trace_ExecRules.cfg", [{k: r[k] for k in FIELDS if k in r} for r in rows],
-                                       parts=12, env={"SCHEMAS": schemas}, timeout=7000)
+    bad = vlib.cached_trace_validate_parallel(chk, "Trace_ExecRules", "Trace_ExecRules.cfg", [{k: r[k] for k in FIELDS if k in r} for r in rows],
+                                              ["ExecRules.tla", "SchemaRules.tla", "TypeCompat.tla"], extra_files=[schemas], group="C17-C18-C20",
+                                              parts=12, env={"SCHEMAS": schemas}, timeout=7000)
     g = {k: rows[0][k] for k in FIELDS if k in rows[0]}
     c = dict(g)
     c["ok"] = not g["ok"]
